@@ -1,6 +1,7 @@
 package main
 
 import (
+	"go/token"
 	"fmt"
 	"go/ast"
 	"go/parser"
@@ -256,6 +257,10 @@ func (cs *ContractSet) parseLines(lines []string, pkgPath, pkgName, file string,
 		case "requires":
 			if curHook != nil {
 				if c, ok := mk(l, rest); ok {
+					if g := curHook.Guard; g != nil {
+						// several requires lines of one guard are conjoined
+						c = Clause{Text: g.Text + " && " + c.Text, Expr: &ast.BinaryExpr{X: &ast.ParenExpr{X: g.Expr}, Op: token.LAND, Y: &ast.ParenExpr{X: c.Expr}}}
+					}
 					curHook.Guard = &c
 				}
 				continue
